@@ -188,6 +188,8 @@ class ExprBuilder:
                     e = ("bin", e[1][:-len("WithOverflow")], e[2], e[3])
                 elif e[0] == "agg" and e[1] == "tuple" and pe[1] < len(e[2]):
                     e = e[2][pe[1]]
+                elif e[0] == "closure" and isinstance(pe[1], int) and pe[1] < len(e[2]):
+                    e = e[2][pe[1]]          # environment field of a desugared closure = the captured operand
                 else:
                     e = ("field", e, fname)
             elif pe[0] == "dc":
